@@ -502,6 +502,9 @@ class Script:
             tree_name = name.tree_name
             if tree_name is not None:  # Happens with lambdas.
                 scope = tree_name.get_definition()
+                if scope.parent.type in ('async_funcdef', 'async_stmt'):
+                    # The indentation of an async function starts at `async`.
+                    scope = scope.parent
                 if scope.start_pos[1] < column:
                     break
             definition = definition.parent()
